@@ -202,11 +202,12 @@ func (c *Coll) shortKey(t, fn, k string, call func(kc *keyCall, body func(r colu
 	tr.Log(Ev{"e": "begin", "t": t, "c": c.Name})
 	kc := &keyCall{fn: fn, k: k}
 	keyMiss.Store(t, kc)
-	called := false
+	called, createdRow, createdAt := false, false, uint32(0)
 	err := call(kc, func(r column.Row, created bool) error {
 		called = true
 		at := r.Index()
 		c.W.Track(at)
+		createdRow, createdAt = created, at
 		if created {
 			tr.Log(Ev{"e": "reserve", "t": t, "o": int(at)})
 		} else {
@@ -254,6 +255,16 @@ func (c *Coll) shortKey(t, fn, k string, call func(kc *keyCall, body func(r colu
 		}
 		tr.Log(Ev{"e": "kend", "t": t, "err": true})
 		tr.Log(Ev{"e": "rollback", "t": t, "fired": c.takeFired()})
+	case called && fail && err != nil:
+		// the callback failed: the call reports it and the transaction rolls back
+		if createdRow {
+			tr.Log(Ev{"e": "insfail", "t": t, "o": int(createdAt)})
+			tr.Log(Ev{"e": "w", "t": t, "n": c.keyName(), "k": "put", "o": int(createdAt), "v": k})
+		}
+		tr.Log(Ev{"e": "kend", "t": t, "err": false})
+		tr.Log(Ev{"e": "rollback", "t": t, "fired": c.takeFired()})
+	case called && fail:
+		tr.Log(Ev{"e": "mismatch", "what": "key shortcut: the callback failed and the call returned no error"})
 	case called && err != nil:
 		tr.Log(Ev{"e": "mismatch", "what": "key shortcut: the callback succeeded and the call returned an error: " + err.Error()})
 	case !called:
@@ -261,24 +272,23 @@ func (c *Coll) shortKey(t, fn, k string, call func(kc *keyCall, body func(r colu
 	}
 }
 
-// ShortInsertKey: Collection.InsertKey (the callback never fails here: a failing insert callback inside a
-// committing transaction is the catalogued D-failed-insert-applied and is driven by the Tx form).
-func (c *Coll) ShortInsertKey(t, k string, ws []W) {
+// ShortInsertKey: Collection.InsertKey; a failing callback makes the call return the error and roll back.
+func (c *Coll) ShortInsertKey(t, k string, ws []W, fail bool) {
 	c.shortKey(t, "ins", k, func(kc *keyCall, body func(column.Row, bool) error) error {
 		return c.C.InsertKey(KeyTokens[k], func(r column.Row) error { return body(r, true) })
-	}, ws, false, false, 0)
+	}, ws, fail, false, 0)
 }
 
-func (c *Coll) ShortUpsertKey(t, k string, ws []W) {
+func (c *Coll) ShortUpsertKey(t, k string, ws []W, fail bool) {
 	c.shortKey(t, "ups", k, func(kc *keyCall, body func(column.Row, bool) error) error {
 		return c.C.UpsertKey(KeyTokens[k], func(r column.Row) error { return body(r, kc.missed) })
-	}, ws, false, false, 0)
+	}, ws, fail, false, 0)
 }
 
-func (c *Coll) ShortQueryKey(t, k string, ws []W, flavor int) {
+func (c *Coll) ShortQueryKey(t, k string, ws []W, flavor int, fail bool) {
 	c.shortKey(t, "qry", k, func(kc *keyCall, body func(column.Row, bool) error) error {
 		return c.C.QueryKey(KeyTokens[k], func(r column.Row) error { return body(r, false) })
-	}, ws, false, true, flavor)
+	}, ws, fail, true, flavor)
 }
 
 // ShortDeleteKey: Collection.DeleteKey; where the key points is looked up just before (nothing runs in between),
